@@ -49,9 +49,11 @@ func (f *Formatter) Format(content string) (string, error) {
 	// Trim leading newlines from body
 	body = strings.TrimLeft(body, "\n")
 
-	// Check if this looks like a full document (starts with <!DOCTYPE or <html)
+	// Check if this looks like a full document (starts with <!DOCTYPE or <html,
+	// possibly after comments such as a licence header)
 	trimmedBody := strings.TrimSpace(body)
-	isFullDocument := hasPrefixFold(trimmedBody, "<!DOCTYPE") || hasPrefixFold(trimmedBody, "<html")
+	start := strings.TrimSpace(trimmedBody[leadingComments(trimmedBody):])
+	isFullDocument := hasPrefixFold(start, "<!DOCTYPE") || hasPrefixFold(start, "<html")
 
 	if isFullDocument {
 		return f.formatFullDocument(frontmatter, body)
@@ -64,6 +66,10 @@ func (f *Formatter) Format(content string) (string, error) {
 // formatFullDocument formats a complete HTML document.
 func (f *Formatter) formatFullDocument(frontmatter, body string) (string, error) {
 	trimmedBody := strings.TrimSpace(body)
+
+	// Comments in front of the DOCTYPE are written back as they are
+	lead := strings.TrimSpace(trimmedBody[:leadingComments(trimmedBody)])
+	trimmedBody = strings.TrimSpace(trimmedBody[leadingComments(trimmedBody):])
 
 	// Extract DOCTYPE if present
 	var doctype string
@@ -96,6 +102,10 @@ func (f *Formatter) formatFullDocument(frontmatter, body string) (string, error)
 	// Reconstruct with frontmatter and DOCTYPE
 	result.Reset()
 	result.WriteString(frontmatter)
+	if lead != "" {
+		result.WriteString(lead)
+		result.WriteString("\n")
+	}
 	if doctype != "" {
 		result.WriteString(doctype)
 		result.WriteString("\n")
@@ -109,6 +119,26 @@ func (f *Formatter) formatFullDocument(frontmatter, body string) (string, error)
 	}
 
 	return finalResult, nil
+}
+
+// leadingComments returns the length of the comments, and the white space
+// between them, that s begins with.
+func leadingComments(s string) int {
+	end := 0
+	for {
+		i := end
+		for i < len(s) && (s[i] == ' ' || s[i] == '\t' || s[i] == '\n' || s[i] == '\r' || s[i] == '\f') {
+			i++
+		}
+		if !strings.HasPrefix(s[i:], "<!--") {
+			return end
+		}
+		closing := strings.Index(s[i+4:], "-->")
+		if closing < 0 {
+			return end
+		}
+		end = i + 4 + closing + 3
+	}
 }
 
 // hasPrefixFold reports whether s starts with prefix, ignoring ASCII case.
